@@ -423,6 +423,13 @@ def finish(prop_id, sel, results, tier, seed, level, trusted, assumptions, expla
             pick = [p for p in ps if p["id"].split(".")[-2:-1] == ["assertion"]][:2] or ps[:2]
             for p in pick:
                 samples.append({"group": r["group"], "cbmc_property": p["id"], "obligation": p["desc"], "status": p["status"]})
+        uw_fail = [p for p in fails if ".unwind." in p["id"] or p["id"].endswith(".unwind")]
+        if uw_fail and not getattr(g, "unwind_is_spec", False):
+            # an unwinding assertion only says that the bound chosen for the run was too small
+            undecided.append({"group": r["group"], "reason": "unwinding bound too small for %s" % ", ".join(p["id"] for p in uw_fail[:3])})
+            fails = [p for p in fails if p not in uw_fail]
+            if not fails:
+                continue
         for p in fails:
             key = obligation_key(r["group"], p)
             hit = None
